@@ -476,6 +476,8 @@ impl Drop for Server {
                 std::os::unix::net::UnixStream::connect(path).map(Connection::from)
             }
         };
+        #[cfg(tiny_http_verif)]
+        verif::point(verif::FP_DROP_WOKE_ACCEPT, 0, 0);
         if let Ok(stream) = maybe_stream {
             let _ = stream.shutdown(Shutdown::Both);
         }
